@@ -72,10 +72,15 @@ func asString(values ...Value) String {
 	for i := range str {
 		str[i] = -1
 	}
+	// The same (@, @char) pair may be supplied more than once; count the slots that get filled, not the inputs.
+	filled := 0
 	for _, t := range tuples {
+		if str[t.at-minAt] < 0 {
+			filled++
+		}
 		str[t.at-minAt] = t.char
 	}
-	return String{s: str, offset: minAt, holes: len(str) - n}
+	return String{s: str, offset: minAt, holes: len(str) - filled}
 }
 
 // AsString returns String and the empty set as String or false otherwise.
